@@ -170,6 +170,19 @@ def conclude(pid, tier, seed, prop, reg, funcs, all_obs, results, texts, native,
             continue
         tv = (ent['target'], ent['variant'])
         if tv in reported_targets:
+            # the function also has a failing input from the native side: the failed obligation is reported by name,
+            # with that input as its replayable witness
+            if k in base_keys or not base_keys:
+                w = [x for x in native_witness[tv] if not match_known(known, pid, x['clause'], x.get('case'))][0]
+                path = write_replay(k, dict(
+                    property=pid, obligation=k, target=ent['target'], variant=ent['variant'],
+                    contracts_module=contracts_module_of(reg, ent['target']), recipe=w.get('case'), input=w.get('input'),
+                    observed=w.get('why'), witness_clause=w['clause'], failed_vcs=ent['failed'][:3],
+                    note="obligation discharged on the unchanged tree is no longer discharged; the failing input was "
+                         "found by the native search on the same function (it falsifies the clause named under "
+                         "witness_clause when replayed)",
+                    replay_cmd=f"/venv/bin/python {VERIF}/pyvc/native.py replay <this file>"))
+                violations.append((k, path, ''))
             continue
         # is every witness of this function a known finding?  then the failed obligation is explained
         if tv in native_witness and all(match_known(known, pid, w['clause'], w.get('case')) for w in native_witness[tv]):
